@@ -149,8 +149,24 @@ def run_harness(meta, prop_id, keep=False):
     if meta.get('bounded') and meta['bounded'].get('unwind'):
         cb_cmd += ['--unwind', str(meta['bounded']['unwind']), '--unwinding-assertions']
     elif meta.get('unwind'):
-        # loops that are complete at this bound (checked by unwinding assertions)
-        cb_cmd += ['--unwind', str(meta['unwind']), '--unwinding-assertions']
+        # loops that are complete at this bound (checked by unwinding assertions).  A global --unwind
+        # cuts the instrumented loop-contract code as well, so the bound is given per remaining loop.
+        if gi_cmd:
+            rc2, out2, err2, _ = sh(['cbmc', '--show-loops', '--json-ui', cur], 120)
+            names = []
+            try:
+                for it in json.loads(out2):
+                    for lp in it.get('loops', []):
+                        fn = lp.get('sourceLocation', {}).get('function', '')
+                        if not fn.startswith('__CPROVER'):
+                            names.append(lp.get('name'))
+            except Exception:
+                pass
+            if names:
+                cb_cmd += ['--unwindset', ','.join('%s:%d' % (n, int(meta['unwind'])) for n in names)]
+            cb_cmd += ['--unwinding-assertions']
+        else:
+            cb_cmd += ['--unwind', str(meta['unwind']), '--unwinding-assertions']
     cb_cmd += [cur]
     rc, out, err, dt = sh(cb_cmd, tmo)
     res['solver_s'] = round(dt, 2)
